@@ -28,6 +28,7 @@ import (
 	"encoding/json"
 	"fmt"
 	"hash/fnv"
+	"reflect"
 	"sort"
 	"strings"
 	"sync"
@@ -70,11 +71,12 @@ type witness struct {
 
 // result of one evaluation.
 type result struct {
-	class string // outcome class for the histogram
-	sig   string // non-empty: violation signature
-	wit   witness
-	enc   []byte
-	trans int // zcrypto operations executed
+	class   string // outcome class for the histogram
+	sig     string // non-empty: violation signature
+	wit     witness
+	enc     []byte
+	trans   int // zcrypto operations executed
+	oodFlag int // 1 when the value is outside the equality domain (only panics are reported for those)
 }
 
 func short(b []byte) string {
@@ -88,6 +90,9 @@ func short(b []byte) string {
 // roundTrip evaluates the oracle on one value.
 func roundTrip(s *spec, tier string, idx int, k kase) (r result) {
 	r.wit = witness{Type: s.Name, Kind: "roundtrip", Tier: tier, Index: idx, Case: k.Desc}
+	if k.OOD != "" {
+		r.oodFlag = 1
+	}
 	var enc []byte
 	var err error
 	r.trans++
@@ -232,7 +237,7 @@ func poolDecode(s *spec, tier string, idx int, doc string) (r result) {
 
 type violAgg struct {
 	sig   string
-	order [3]int // spec index, kind (0 roundtrip, 1 pool), case index — smallest wins (minimal witness)
+	order [4]int // spec index, kind (0 roundtrip, 1 pool), 0 in-domain / 1 out-of-domain value, case index — smallest wins (minimal witness)
 	wit   witness
 	count int64
 }
@@ -245,9 +250,10 @@ type typeStat struct {
 	PoolDocs   int64            `json:"pool_docs"`
 	Classes    map[string]int64 `json:"classes"`
 	Violations []string         `json:"violation_signatures,omitempty"`
+	ByValue    string           `json:"encoding_of_a_non_addressable_value,omitempty"`
 }
 
-func less3(a, b [3]int) bool {
+func less3(a, b [4]int) bool {
 	for i := range a {
 		if a[i] != b[i] {
 			return a[i] < b[i]
@@ -326,7 +332,7 @@ func main() {
 				trans += int64(r.trans)
 				local[r.class]++
 				if r.sig != "" {
-					lv = append(lv, &violAgg{sig: r.sig, order: [3]int{t.spec, t.kind, i}, wit: r.wit, count: 1})
+					lv = append(lv, &violAgg{sig: r.sig, order: [4]int{t.spec, t.kind, r.oodFlag, i}, wit: r.wit, count: 1})
 				}
 			}
 			c.Transitions.Add(trans)
@@ -395,6 +401,10 @@ func main() {
 				}
 			}
 		}
+		for i, s := range specs {
+			stats[i].ByValue = byValueProbe(s)
+			c.Outcome("by-value probe (info): "+stats[i].ByValue, 1)
+		}
 		c.Distinct.Store(distinct)
 		c.Traces.Store(traces)
 		c.Set("types", types)
@@ -413,6 +423,40 @@ func main() {
 			}
 		}
 	})
+}
+
+// byValueProbe (information only): the MarshalJSON methods of most of these
+// types have pointer receivers, so a value that encoding/json cannot address
+// (passed by value, map element, member of a struct passed by value) is
+// encoded by the default rules instead. The statement does not say how the
+// value reaches the encoder; the check marshals through a pointer and only
+// records what the other route does for the canonical value of each type.
+func byValueProbe(s *spec) (out string) {
+	if s.Canon == nil {
+		return "not probed"
+	}
+	defer func() {
+		if r := recover(); r != nil {
+			out = fmt.Sprintf("by-value route panics: %v", r)
+		}
+	}()
+	p := s.Canon()
+	viaPtr, err1 := json.Marshal(p)
+	viaVal, err2 := json.Marshal(reflect.ValueOf(p).Elem().Interface())
+	if err1 != nil || err2 != nil {
+		return "encode error"
+	}
+	if string(viaPtr) == string(viaVal) {
+		return "same document as through a pointer"
+	}
+	dec := s.Fresh()
+	if err := json.Unmarshal(viaVal, dec); err != nil {
+		return "different document (default encoding), which the type's decoder rejects"
+	}
+	if s.Diff(p, dec) != "" {
+		return "different document (default encoding), which decodes to a different value"
+	}
+	return "different document (default encoding), which decodes to an equal value"
 }
 
 func replay(c *ev.Ctx) {
@@ -451,7 +495,7 @@ func replay(c *ev.Ctx) {
 
 func devBound(tier string) int {
 	if tier == "thorough" {
-		return 4
+		return 5
 	}
 	return 3
 }
